@@ -91,7 +91,8 @@ structure GeneJ where
 
 def geneOfJson (j : Json) : R Gene := do
   return ⟨← strF j "name", ← intF j "strand", (natF j "region").toOption.getD 0,
-          ← listOf domainOfJson (← fld j "domains"), boolFD j "motifs" false, 0⟩
+          ← listOf domainOfJson (← fld j "domains"), boolFD j "motifs" false, 0,
+          (natF j "start").toOption.getD 0⟩
 
 def handlePair (j : Json) : R Json := do
   let a ← geneOfJson (← fld j "a")      -- previous
@@ -118,7 +119,9 @@ def handlePair (j : Json) : R Json := do
 
 def handleChain (j : Json) : R Json := do
   let genes0 ← listOf geneOfJson (← fld j "genes")
-  let genes := (genes0.zipIdx).map fun (g, i) => { g with index := i }
+  -- "cross": the region crosses the origin and begins at this coordinate (genes are in record order)
+  let cross : Option Nat := (natF j "cross").toOption
+  let genes := reindex (regionGenes cross genes0)
   let model := exceptJson ((chain genes).map fun rs =>
     jObj [("genes", jArr (rs.map fun r => jObj [("name", Json.str r.name), ("modules", modulesToJson r.modules)]))])
   let impl ← listOf (fun g => do
@@ -126,7 +129,8 @@ def handleChain (j : Json) : R Json := do
   return jObj [("model", model),
                ("spec", jObj [("genes", jArr (impl.map fun g => jArr (g.2.map specOfModule))),
                               ("line", toJson (Spec.chainLineOK genes (impl.map fun g => (g.1, g.2.map (·.1))))),
-                              ("blocks", toJson (Spec.chainBlocksOK genes (impl.map fun g => (g.1, g.2.map (·.1)))))])]
+                              ("blocks", toJson (Spec.chainBlocksOK genes (impl.map fun g => (g.1, g.2.map (·.1))))),
+                              ("order", jStrs (genes.map (·.name)))])]
 
 def handleLabel (j : Json) : R Json := do
   let label ← strF j "label"
